@@ -416,6 +416,16 @@ def run_case(desc):
                     if got != want[n] and json.loads(json.dumps(got)) != json.loads(json.dumps(want[n])):
                         bad = f"after process death at file operation {k}/{K}: {n} would be treated as up to date but holds {got!r}, from-scratch value is {want[n]!r}"
                         break
+            want_k, o_k = want, o
+            if bad is None and k % 3 == 0:
+                # before the repair run the source changes to a SHORTER value: everything downstream is out of date again and every file that
+                # is rewritten becomes shorter than what the killed run may have left in its staging files
+                wait_fs_tick(d)
+                aval_s = {"v": rng.randint(1, 9)}
+                stores2["a"].write(aval_s)
+                want_k = scratch_values(aval_s, names)
+                o_k = {n: True for n in names}
+                counters["file_repairs_after_shrinking_update"] = counters.get("file_repairs_after_shrinking_update", 0) + 1
             if bad is None:
                 wait_fs_tick(d)
                 try:
@@ -426,11 +436,15 @@ def run_case(desc):
                 if bad is None:
                     st2 = state(stores2, names)
                     for n in names[1:]:
-                        got = stores2[n].read()
-                        if json.loads(json.dumps(got)) != json.loads(json.dumps(want[n])):
-                            bad = f"after the repair run {n} holds {got!r}, from-scratch value is {want[n]!r} (cut at {k}/{K})"
+                        try:
+                            got = stores2[n].read()
+                        except BaseException as e:
+                            bad = f"after the repair run {n} cannot be read: {e!r} (cut at {k}/{K}; directory {sorted(os.listdir(d))})"
                             break
-                        if not o[n] and st2[n] != st[n]:
+                        if json.loads(json.dumps(got)) != json.loads(json.dumps(want_k[n])):
+                            bad = f"after the repair run {n} holds {got!r}, from-scratch value is {want_k[n]!r} (cut at {k}/{K})"
+                            break
+                        if not o_k[n] and st2[n] != st[n]:
                             bad = f"{n} was completely written before the cut at file operation {k}/{K} and nothing upstream changed, yet the repair run rewrote it"
                             break
                     if bad is None:
